@@ -4,6 +4,7 @@ Candidates come from the sidecar contract (keyed by loop ordinal + anchor) plus 
 A dropped candidate is recorded in the loop report and is never a verdict by itself.
 """
 import ast
+import os
 
 import z3
 
@@ -186,8 +187,7 @@ def loc_name(ex, st, oid):
 
 
 def run_loop(ex, s, st, kind, itv):
-    ordinal = ex.loop_ordinal
-    ex.loop_ordinal += 1
+    ordinal = ex.static_loop_ordinal(s)
     anchor = ("while " + ast.unparse(s.test)) if kind == "while" else ("for %s in %s" % (ast.unparse(s.target), ast.unparse(s.iter)))
     side = None
     if ex.contract is not None and ex.depth == 0:
@@ -316,7 +316,7 @@ def run_loop(ex, s, st, kind, itv):
     idx = fresh_int("i%d" % ordinal) if kind == "for" else None
 
     def extra_of(state, index):
-        e = {"entry": entry, "idx": index}
+        e = {"entry": entry, "idx": index, "fentry": ex.fentry, "g": ex.case_ghost}
         return e
 
     # automatic candidates: each havoc'd scalar local / field unchanged w.r.t. entry
@@ -427,6 +427,8 @@ def run_loop(ex, s, st, kind, itv):
                     g = eval_cand(fn, b_st, nidx)
                     if g is None or not entails(b_st.pc, g, 3000):
                         failed.add(nm)
+        if shape_problem is not None and os.environ.get("PYVC_DEBUG"):
+            print("  [loop %d %s] shape problem: %s; active=%s dropped=%s" % (ordinal, anchor, shape_problem, [a for a, _ in active], dropped))
         if shape_problem is not None:
             # retry once with the end-of-body states as additional peeks (shape join), else give up
             if rounds <= 3:
